@@ -4,6 +4,7 @@ import shutil
 import struct
 
 from .. import boot, ihex, sut
+from .. import hexcheck
 from ..run import Acc, Violation, run_given
 from .c06 import pbytes
 
@@ -11,7 +12,7 @@ ID = "C16"
 LEVEL = "exploration"
 RULE = (
     "sequences of 1-3 `image update` invocations in one process (different arguments and output files each time): envelope file sizes "
-    "{0,1,15,16,17,65535,65536,65537, random <= 300 KiB}, update-candidate-info and DFU partition addresses over the 32-bit range "
+    "{0,1,15,16,17,65535,65536,65537, random <= 300 KiB} with pseudo-random, all-0xFF, all-zero, 0xFF-run, 0xFF-tail and text contents, update-candidate-info and DFU partition addresses over the 32-bit range "
     "incl. 0, 64 KiB crossings, 16 MiB-aligned values and the top of memory (address + size <= 2^32), cache counts 0..16; through "
     "cmd_image.main, ImageCreator.create_files_for_update and the CLI for a sample. Oracle: own Intel-HEX reader; the storage file "
     "must contain exactly 4*(4+2n) bytes at the info address (magic, 1 region, partition address, file size, zeros; LE32) and the "
@@ -23,6 +24,34 @@ SIZES = [0, 1, 15, 16, 17, 65535, 65536, 65537]
 ADDRS = [0, 0x10, 0xFFF0, 0xFFFC, 0x10000, 0x00FFFFF0, 0x01000000, 0x0E100000, 0x0E1EF340, 0x0FFFFFFC, 0x7FFFFFF0, 0xF0000000]
 
 
+FILLS = ["rand", "ff", "zero", "ff-runs", "ff-tail", "ascii-hex"]
+
+
+def shaped(size, salt, fill):
+    """Envelope file bytes: pseudo-random, or with the shapes real images have - erased (0xFF) or zero regions, padding at the end, text."""
+    data = bytearray(pbytes(size, salt))
+    if fill == "ff":
+        data = bytearray(b"\xff" * size)
+    elif fill == "zero":
+        data = bytearray(size)
+    elif fill == "ff-runs":
+        # runs of 0xFF of 16..80 bytes at pseudo-random places (long enough to cover whole hex records at any alignment)
+        pos = 0
+        k = 0
+        while pos < size:
+            run = 16 + (salt + 7 * k) % 65
+            gap = 1 + (salt * 31 + 13 * k) % 97
+            data[pos:pos + run] = b"\xff" * min(run, size - pos)
+            pos += run + gap
+            k += 1
+    elif fill == "ff-tail":
+        keep = size // 3
+        data[keep:] = b"\xff" * (size - keep)
+    elif fill == "ascii-hex":
+        data = bytearray((b":10000000" + bytes(data).hex().upper().encode() + b"\r\n")[:size].ljust(size, b"F"))
+    return bytes(data)
+
+
 def judge(case, acc, ctx):
     d = ctx.tmpdir("c16")
     try:
@@ -31,7 +60,7 @@ def judge(case, acc, ctx):
             reclen = 4 * (4 + 2 * n)
             pa = min(pa, 2**32 - max(size, 1))
             ia = min(ia, 2**32 - reclen)
-            data = pbytes(size, st["salt"])
+            data = shaped(size, st["salt"], st.get("fill", "rand"))
             inp = os.path.join(d, f"env{i}.suit")
             with open(inp, "wb") as fh:
                 fh.write(data)
@@ -62,18 +91,18 @@ def judge(case, acc, ctx):
             crossing = (pa >> 16) != ((pa + max(size, 1) - 1) >> 16) or (ia >> 16) != ((ia + reclen - 1) >> 16)
             nondefault = pa != 0x0E100000 or ia != 0x0E1EF340
             nt = size > 0 and (crossing or nondefault or n != 6)
-            classes = [f"route:{route}", f"size:{size if size in SIZES else 'other'}", f"caches:{n}", f"step:{i}"] + (["crossing-64k"] if crossing else []) + \
+            classes = [f"route:{route}", f"size:{size if size in SIZES else 'other'}", f"caches:{n}", f"step:{i}", f"fill:{st.get('fill', 'rand')}"] + (["crossing-64k"] if crossing else []) + \
                       (["addr-zero"] if pa == 0 or ia == 0 else []) + (["top-of-memory"] if pa + size == 2**32 or ia + reclen == 2**32 else [])
             acc.case(nt_key=(size if size in SIZES else size >> 12, pa >> 24, pa & 0xFFFF, ia >> 24, n, i) if nt else None, classes=classes, sample=case, sample_key=f"{route}/{i}/{n % 3}")
             if raised is not None:
                 raise Violation(f"step {i}: image update rejected valid arguments (size {size}, partition {pa:#x}, info {ia:#x}, caches {n}): {type(raised).__name__}: {str(raised)[:200]}",
                                 "two hex files", bucket=f"reject:{type(raised).__name__}")
             want = struct.pack("<IIII", 0x55AA55AA, 1, pa, size) + b"\x00" * (8 * n)
-            segs = ihex.segments(ihex.read(sf))
+            segs = ihex.segments(hexcheck.read(sf, f"step {i}: storage file"))
             if segs != [(ia, want)]:
                 raise Violation(f"step {i}: storage file holds {[(hex(a), b.hex()[:64]) for a, b in segs]}; expected {reclen} bytes at {ia:#x}: {want.hex()[:64]}",
                                 "only the update-candidate record at the given address", bucket="storage-record")
-            psegs = ihex.segments(ihex.read(pf))
+            psegs = ihex.segments(hexcheck.read(pf, f"step {i}: DFU partition file"))
             wantp = [(pa, data)] if size else []
             if psegs != wantp:
                 raise Violation(f"step {i}: DFU partition file holds {[(hex(a), len(b)) for a, b in psegs]}; expected {size} bytes at {pa:#x}" +
@@ -90,6 +119,7 @@ def step_s():
     return st.fixed_dictionaries({
         "size": st.one_of(st.sampled_from(SIZES), st.integers(0, 300), st.integers(0, 300 * 1024)),
         "salt": st.integers(0, 10**6),
+        "fill": st.sampled_from(FILLS + ["rand", "rand"]),
         "paddr": addr, "iaddr": addr,
         "caches": st.one_of(st.integers(0, 16), st.sampled_from([0, 6, 16])),
     })
@@ -107,7 +137,7 @@ def run_shard(ctx, spec):
     route = spec["route"]
     same_env = st.booleans()
     strat = st.tuples(st.lists(step_s(), min_size=1, max_size=3), st.booleans(), same_env).map(
-        lambda t: {"steps": [dict(x, size=t[0][0]["size"], salt=t[0][0]["salt"]) for x in t[0]] if t[2] else t[0], "route": route, "reuse_outputs": t[1] or len(t[0]) > 1})
+        lambda t: {"steps": [dict(x, size=t[0][0]["size"], salt=t[0][0]["salt"], fill=t[0][0]["fill"]) for x in t[0]] if t[2] else t[0], "route": route, "reuse_outputs": t[1] or len(t[0]) > 1})
     run_given(ctx, acc, "update", strat, lambda c, a: judge(c, a, ctx), seed=ctx.seed * 1000 + spec["i"], n=spec["n"])
     return acc
 
@@ -123,6 +153,6 @@ def replay(ctx, check, case):
 
 def finalize(ctx, m, ev):
     c = m["counters"]
-    for n in ["size:0", "size:65536", "size:65537", "caches:0", "caches:16", "crossing-64k", "addr-zero", "top-of-memory", "route:cli", "route:api", "step:2"]:
+    for n in ["size:0", "size:65536", "size:65537", "caches:0", "caches:16", "crossing-64k", "addr-zero", "top-of-memory", "route:cli", "route:api", "step:2", "fill:ff", "fill:ff-runs", "fill:ff-tail", "fill:zero"]:
         if not c.get(n):
             raise boot.HarnessError(f"interesting class {n} is empty")
